@@ -1,5 +1,6 @@
 import ProductMD.Proofs.C14RoundTrip
 import ProductMD.Proofs.C14F9
+import ProductMD.Proofs.C14Reorder
 /-!
 # C14 — release identifiers round-trip; the validity predicates accept exactly the documented names
 
@@ -133,6 +134,18 @@ For entries `u` before `t`: `u` is not a suffix of `t`, and `u` does not end in 
 changes nothing; `"testing"` beside `"updates-testing"` breaks it in either order.) -/
 theorem C14_types_suffix_free : FirstMatchOK Gen.RELEASE_TYPES := by decide +kernel
 
+/-- Reordering the table is harmless as long as no entry is a suffix of a different entry (true of the present
+table, see the example below): the parser — here with the table as a parameter, `parsePartWith Gen.RELEASE_TYPES`
+being `parseReleaseIdPart` by `rfl` — gives the same result on EVERY identifier for every permutation. -/
+theorem C14_reorder_harmless (l : List Str) (hp : Gen.RELEASE_TYPES.Perm l)
+    (h : SuffixAntichain Gen.RELEASE_TYPES) (rid : Str) :
+    parsePartWith l rid = parseReleaseIdPart rid := by
+  rw [← parsePartWith_gen, parsePartWith_perm h hp rid]
+
+example : SuffixAntichain ["fast".toList, "ga".toList, "updates".toList, "updates-testing".toList, "eus".toList,
+    "aus".toList, "els".toList, "tus".toList, "e4s".toList] := by decide +kernel
+example : ¬ SuffixAntichain ["updates-testing".toList, "testing".toList] := by decide +kernel
+
 /-- hypotheses of the round trip for one part (release or base product): the code accepts the three strings, the
 type is a known one, the version is free of `-` and `@`, and a `ga` release has no dash in its short name. -/
 abbrev Rel.Valid (r : Rel) : Prop := PartOK r
@@ -217,6 +230,7 @@ example : createRel ⟨"rhel-x".toList, "7.1".toList, "updates".toList⟩ (some 
     = .ok "rhel-x-7.1-updates@rhel-7".toList := by decide +kernel
 example : ¬ isValidReleaseShort "Fedora".toList = true := by decide +kernel
 example : SpecShort "fedora-23a".toList ∧ '\n' ∉ "fedora-23a".toList := by decide
-example : ∀ t ∈ Gen.RELEASE_TYPES, isValidReleaseType t = true := by decide +kernel
+/- Deliberately NOT an obligation: "every entry of `Gen.RELEASE_TYPES` is an accepted type".  It holds today, but an
+entry that `create_release_id` refuses is outside the property's quantifier, so adding one is harmless here. -/
 
 end PM
